@@ -196,12 +196,29 @@ def _do_make_formula_body(formula, default_value, assoc_value=None):
   with use_inferences(InferRecAssignment, InferRecAttrAssignment):
     try:
       astroid.parse(final_formula.get_text())
+      _check_compiles(final_formula.get_text())
     except (astroid.AstroidSyntaxError, SyntaxError) as e:
       error = getattr(e, "error", e)  # extract SyntaxError from AstroidSyntaxError
       return textbuilder.Text(_create_syntax_error_code(final_formula, formula, error))
 
   # We return the text-builder object whose .get_text() is the final formula.
   return final_formula
+
+
+def _check_compiles(body_text):
+  """
+  Compiles body_text as the body of a function, to catch the syntax errors that parsing alone does
+  not report (e.g. `break` outside a loop, `nonlocal` without a binding). Without this, such a
+  formula would only fail when the whole generated module is compiled. Raises SyntaxError with
+  the position translated back to body_text.
+  """
+  indented = "".join(" " + line for line in body_text.splitlines(True))
+  try:
+    compile("def _formula(rec, table):\n" + indented, code_filename, "exec")
+  except SyntaxError as e:
+    lineno = max(1, (e.lineno or 2) - 1)
+    offset = max(1, (e.offset or 2) - 1)
+    raise SyntaxError(e.msg, (code_filename, lineno, offset, e.text))
 
 
 _whitespace_only_re = re.compile('^[ \t]+$', re.MULTILINE)
